@@ -5,7 +5,7 @@
 //! through `Model::run` / `run_n` / `run_one` / `partial_run` with panic capture.
 #![allow(dead_code)]
 #[path = "onnx_enc.rs"]
-mod onnx_enc;
+pub mod onnx_enc;
 use hcommon::Rng;
 use onnx_enc::{dt, Dim, Graph, Node, Tensor as OTensor, ValueInfo};
 use rten::verif::Node as GNode;
@@ -36,6 +36,8 @@ pub struct Spec {
     pub dtype: u32, // 0..3 tensor, 11 = sequence of f32
     pub shape: Vec<usize>,
     pub owned: bool,
+    /// first element of an i32 tensor (the value of a scalar `cond` / trip count input)
+    pub ival: i32,
 }
 
 impl Spec {
@@ -45,7 +47,7 @@ impl Spec {
     pub fn make(&self) -> Value {
         let n: usize = self.shape.iter().product();
         match self.dtype {
-            0 => Value::from(Tensor::<i32>::from_data(&self.shape, (0..n).map(|i| i as i32 % 5).collect::<Vec<_>>())),
+            0 => Value::from(Tensor::<i32>::from_data(&self.shape, (0..n).map(|i| self.ival + i as i32 % 5).collect::<Vec<_>>())),
             1 => Value::from(Tensor::<f32>::from_data(&self.shape, (0..n).map(|i| 0.5 + (i % 7) as f32).collect::<Vec<_>>())),
             2 => Value::from(Tensor::<i8>::from_data(&self.shape, (0..n).map(|i| (i % 5) as i8).collect::<Vec<_>>())),
             3 => Value::from(Tensor::<u8>::from_data(&self.shape, (0..n).map(|i| (i % 5) as u8).collect::<Vec<_>>())),
@@ -91,6 +93,8 @@ pub struct GVal {
     /// index of the producing op, or None for graph inputs / initializers
     pub producer: Option<usize>,
     pub is_init: bool,
+    /// 0: f32 tensor [n, width]; 1: scalar i32 condition; 2: scalar i32 trip count
+    pub special: u8,
 }
 
 #[derive(Clone, Debug)]
@@ -114,6 +118,9 @@ pub struct GenModel {
     pub n_nodes: u32,
     pub val_ids: Vec<Option<u32>>, // value idx -> node id (None if the loader dropped the name)
     pub op_ids: Vec<u32>,          // ids of operator nodes in the loaded graph
+    /// violated graph assumptions (see `check_assumptions`), top-level graph and subgraphs
+    pub assumption_failures: Vec<String>,
+    pub control_flow: bool,
 }
 
 pub fn gen_onnx(rng: &mut Rng) -> (Graph, Vec<GVal>, Vec<(String, Vec<usize>, Vec<usize>)>, usize, Vec<Decl>, usize, Vec<usize>) {
@@ -133,13 +140,13 @@ pub fn gen_onnx(rng: &mut Rng) -> (Graph, Vec<GVal>, Vec<(String, Vec<usize>, Ve
         };
         g.inputs.push(ValueInfo::new(&name, dt::FLOAT, shape));
         decls.push(Decl { variant });
-        vals.push(GVal { name, width: 4, producer: None, is_init: false });
+        vals.push(GVal { name, width: 4, producer: None, is_init: false, special: 0 });
     }
     let n_init = rng.usize_below(3);
     for k in 0..n_init {
         let name = format!("c{k}");
         g.initializers.push(OTensor::f32s(&name, &[1, 4], &[1.0, 2.0, 3.0, 4.0]));
-        vals.push(GVal { name, width: 4, producer: None, is_init: true });
+        vals.push(GVal { name, width: 4, producer: None, is_init: true, special: 0 });
     }
     let mut ops = vec![];
     let n_ops = 1 + rng.usize_below(7);
@@ -153,7 +160,7 @@ pub fn gen_onnx(rng: &mut Rng) -> (Graph, Vec<GVal>, Vec<(String, Vec<usize>, Ve
             let out = format!("v{i}");
             g.nodes.push(Node::new(ty, &opname, &[&vals[a].name], &[&out]));
             let w = vals[a].width;
-            vals.push(GVal { name: out, width: w, producer: Some(i), is_init: false });
+            vals.push(GVal { name: out, width: w, producer: Some(i), is_init: false, special: 0 });
             ops.push((opname, vec![a], vec![vals.len() - 1]));
         } else if kind < 8 {
             let ty = *rng.pick(&["Add", "Mul", "Sub"]);
@@ -163,7 +170,7 @@ pub fn gen_onnx(rng: &mut Rng) -> (Graph, Vec<GVal>, Vec<(String, Vec<usize>, Ve
             let out = format!("v{i}");
             g.nodes.push(Node::new(ty, &opname, &[&vals[a].name, &vals[b].name], &[&out]));
             let w = vals[a].width;
-            vals.push(GVal { name: out, width: w, producer: Some(i), is_init: false });
+            vals.push(GVal { name: out, width: w, producer: Some(i), is_init: false, special: 0 });
             ops.push((opname, vec![a, b], vec![vals.len() - 1]));
         } else {
             let full: Vec<usize> = (0..vals.len()).filter(|&j| vals[j].width == 4 && !vals[j].is_init).collect();
@@ -174,8 +181,8 @@ pub fn gen_onnx(rng: &mut Rng) -> (Graph, Vec<GVal>, Vec<(String, Vec<usize>, Ve
             }
             let (oa, ob) = (format!("v{i}a"), format!("v{i}b"));
             g.nodes.push(Node::new("Split", &opname, &[&vals[a].name, "split_sizes"], &[&oa, &ob]).attr("axis", onnx_enc::Attr::Int(1)));
-            vals.push(GVal { name: oa, width: 2, producer: Some(i), is_init: false });
-            vals.push(GVal { name: ob, width: 2, producer: Some(i), is_init: false });
+            vals.push(GVal { name: oa, width: 2, producer: Some(i), is_init: false, special: 0 });
+            vals.push(GVal { name: ob, width: 2, producer: Some(i), is_init: false, special: 0 });
             ops.push((opname, vec![a], vec![vals.len() - 2, vals.len() - 1]));
         }
     }
@@ -209,7 +216,10 @@ pub fn opt_ids(ids: &[Option<NodeId>]) -> String {
 
 /// Graph IR and metadata of the loaded graph in the driver's syntax.
 pub fn read_back(model: &Model) -> (String, String, u32, Vec<u32>) {
-    let g = model.verif_graph();
+    read_back_graph(model.verif_graph())
+}
+
+pub fn read_back_graph(g: &rten::verif::Graph) -> (String, String, u32, Vec<u32>) {
     let mut by_id: HashMap<u32, &GNode> = HashMap::new();
     let mut max_id = 0u32;
     for (id, node) in g.iter() {
@@ -250,8 +260,11 @@ pub fn read_back(model: &Model) -> (String, String, u32, Vec<u32>) {
             }
             Some(GNode::Operator(op)) => {
                 op_ids.push(id);
-                let caps: Vec<String> =
-                    op.capture_names().filter_map(|n| g.get_node_id(n)).map(|i| i.as_u32().to_string()).collect();
+                // a capture name that does not resolve in this graph is encoded as an id outside the table
+                let caps: Vec<String> = op
+                    .capture_names()
+                    .map(|n| g.get_node_id(n).map(|i| i.as_u32()).unwrap_or(n_nodes + 1000).to_string())
+                    .collect();
                 nodes.push(format!(
                     "O/{}/{}/{}/{}/{}",
                     opt_ids(op.input_ids()),
@@ -276,14 +289,200 @@ pub fn gen_model(rng: &mut Rng) -> Option<GenModel> {
     let model = load(&bytes, optimize).ok()?;
     let (nodes_field, meta_field, n_nodes, op_ids) = read_back(&model);
     let val_ids = vals.iter().map(|v| model.find_node(&v.name).map(|i| i.as_u32())).collect();
-    Some(GenModel { bytes, optimize, vals, ops, n_inputs, decls, n, graph_outputs, nodes_field, meta_field, n_nodes, val_ids, op_ids })
+    let assumption_failures = check_assumptions(&model);
+    Some(GenModel { bytes, optimize, vals, ops, n_inputs, decls, n, graph_outputs, nodes_field, meta_field, n_nodes, val_ids, op_ids, assumption_failures, control_flow: false })
+}
+
+// ------------------------------------------------------------------ graph assumptions
+
+/// All graphs reachable from `g` through `If`/`Loop` operators (`g` first).
+pub fn all_graphs(g: &rten::verif::Graph) -> Vec<&rten::verif::Graph> {
+    use rten::verif::SubgraphOperator;
+    let mut out = vec![g];
+    let mut i = 0;
+    while i < out.len() {
+        let cur = out[i];
+        for (_, node) in cur.iter() {
+            if let GNode::Operator(op) = node {
+                if let Some(sg) = op.operator().as_subgraph_op() {
+                    for sub in sg.subgraphs() {
+                        out.push(sub);
+                    }
+                }
+            }
+        }
+        i += 1;
+    }
+    out
+}
+
+/// The graph hypotheses of the C22 / C26 / C02 theorems, evaluated on one real `Graph`:
+/// `wfg` (operator inputs are value or constant nodes), `wfgo` (operator outputs are value or
+/// constant nodes), `outs-value` (`Executor.WF.outsValue`: operator outputs are value nodes),
+/// `unique-producer` (a value is listed as an output by at most one operator, and that operator
+/// is its registered source), `contract-sub` (`Executor.Contract.notSub`: operators with
+/// subgraphs declare no in-place inputs).
+pub fn graph_assumptions(g: &rten::verif::Graph) -> Vec<&'static str> {
+    let mut bad = vec![];
+    let kind = |id: NodeId| match g.get_node(id) {
+        Some(GNode::Value(_)) => 1,
+        Some(GNode::Constant(_)) => 2,
+        _ => 0,
+    };
+    let mut producers: HashMap<u32, Vec<u32>> = HashMap::new();
+    let (mut wfg, mut wfgo, mut outs_value, mut unique, mut contract_sub) = (true, true, true, true, true);
+    for (id, node) in g.iter() {
+        if let GNode::Operator(op) = node {
+            for i in op.input_ids().iter().flatten() {
+                wfg &= kind(*i) != 0;
+            }
+            for o in op.output_ids().iter().flatten() {
+                wfgo &= kind(*o) != 0;
+                outs_value &= kind(*o) == 1;
+                producers.entry(o.as_u32()).or_default().push(id.as_u32());
+                unique &= g.get_source_node(*o).map(|(p, _)| p) == Some(id);
+            }
+            if op.operator().as_subgraph_op().is_some() {
+                contract_sub &= op.operator().in_place_inputs().is_empty();
+            }
+        }
+    }
+    unique &= producers.values().all(|p| p.len() == 1);
+    for (ok, name) in [(wfg, "wfg"), (wfgo, "wfgo"), (outs_value, "outs-value"), (unique, "unique-producer"), (contract_sub, "contract-sub")] {
+        if !ok {
+            bad.push(name);
+        }
+    }
+    bad
+}
+
+/// Assumptions on the loaded model: the top-level graph has no captures, and every graph
+/// (incl. `If`/`Loop` bodies) satisfies `graph_assumptions`.
+pub fn check_assumptions(model: &Model) -> Vec<String> {
+    let top = model.verif_graph();
+    let mut bad = vec![];
+    if !top.captures().is_empty() {
+        bad.push("top-level-captures".to_string());
+    }
+    for (k, g) in all_graphs(top).into_iter().enumerate() {
+        for b in graph_assumptions(g) {
+            bad.push(format!("{b}@graph{k}"));
+        }
+    }
+    bad
+}
+
+/// Request line `assume <nodes>` and the implementation-side answer for the four assumptions the
+/// Lean driver re-evaluates on the IR (`wfgB`, `wfgoB`, `outsValueB`, `uniqueProducerB`).
+pub fn assume_case(g: &rten::verif::Graph) -> (String, String) {
+    let (nodes, _, _, _) = read_back_graph(g);
+    let bad: Vec<&str> = graph_assumptions(g).into_iter().filter(|b| *b != "contract-sub").collect();
+    (format!("assume {nodes}"), if bad.is_empty() { "ok".to_string() } else { format!("violated:{}", bad.join(",")) })
+}
+
+// ------------------------------------------------------------------ control-flow models
+
+fn sub_graph(name: &str, nodes: Vec<Node>, inputs: Vec<ValueInfo>, outputs: Vec<&str>) -> Graph {
+    Graph {
+        name: name.into(),
+        nodes,
+        inputs,
+        outputs: outputs.iter().map(|o| ValueInfo::new(o, dt::FLOAT, None)).collect(),
+        ..Default::default()
+    }
+}
+
+/// Models with `If` (branches capturing different parent values) and `Loop` (body capturing a
+/// parent value): inputs `cond` (bool scalar), `trip` (int64 scalar), `x`, `y` (f32 `[n,4]`).
+pub fn gen_cf_model(rng: &mut Rng) -> Option<GenModel> {
+    let n = 1 + rng.usize_below(3);
+    let variant = rng.below(3); // 0: If, 1: Loop, 2: both
+    let mut g = Graph::default();
+    let mut vals: Vec<GVal> = vec![];
+    let mut decls = vec![];
+    let mut add_input = |g: &mut Graph, vals: &mut Vec<GVal>, decls: &mut Vec<Decl>, name: &str, special: u8| {
+        let vi = match special {
+            1 => ValueInfo::new(name, dt::BOOL, Some(vec![])),
+            2 => ValueInfo::new(name, dt::INT64, Some(vec![])),
+            _ => ValueInfo::new(name, dt::FLOAT, Some(vec![Dim::Sym("n".into()), Dim::Fixed(4)])),
+        };
+        g.inputs.push(vi);
+        decls.push(Decl { variant: if special == 0 { 1 } else { 4 } });
+        vals.push(GVal { name: name.into(), width: 4, producer: None, is_init: false, special });
+        vals.len() - 1
+    };
+    let x = add_input(&mut g, &mut vals, &mut decls, "x", 0);
+    let y = add_input(&mut g, &mut vals, &mut decls, "y", 0);
+    let cond = if variant != 1 { Some(add_input(&mut g, &mut vals, &mut decls, "cond", 1)) } else { None };
+    let trip = if variant != 0 { Some(add_input(&mut g, &mut vals, &mut decls, "trip", 2)) } else { None };
+    let n_inputs = vals.len();
+    g.initializers.push(OTensor::f32s("c0", &[1, 4], &[1.0, 2.0, 3.0, 4.0]));
+    vals.push(GVal { name: "c0".into(), width: 4, producer: None, is_init: true, special: 0 });
+    let mut ops: Vec<(String, Vec<usize>, Vec<usize>)> = vec![];
+    let mut push_val = |vals: &mut Vec<GVal>, name: &str, p: usize| {
+        vals.push(GVal { name: name.into(), width: 4, producer: Some(p), is_init: false, special: 0 });
+        vals.len() - 1
+    };
+    // a = Relu(x): an intermediate the branches can capture
+    g.nodes.push(Node::new("Relu", "op_a", &["x"], &["a"]));
+    let a = push_val(&mut vals, "a", ops.len());
+    ops.push(("op_a".into(), vec![x], vec![a]));
+    let mut last = a;
+    if let Some(cond) = cond {
+        // then: r = a + c0 (captures a, c0); else: r = y * x (captures y, x)
+        let then_g = sub_graph("then_g", vec![Node::new("Add", "t_add", &["a", "c0"], &["t_r"])], vec![], vec!["t_r"]);
+        let else_g = sub_graph("else_g", vec![Node::new("Mul", "e_mul", &["y", "x"], &["e_r"])], vec![], vec!["e_r"]);
+        g.nodes.push(
+            Node::new("If", "op_if", &["cond"], &["r"])
+                .attr("then_branch", onnx_enc::Attr::Graph(then_g))
+                .attr("else_branch", onnx_enc::Attr::Graph(else_g)),
+        );
+        let r = push_val(&mut vals, "r", ops.len());
+        ops.push(("op_if".into(), vec![cond, a, y, x], vec![r]));
+        last = r;
+    }
+    if let Some(trip) = trip {
+        // w = Loop(trip, "", last) { v_out = v_in + y }  (body captures y)
+        let body = Graph {
+            name: "body_g".into(),
+            nodes: vec![Node::new("Identity", "b_id", &["b_cond"], &["b_cond_out"]), Node::new("Add", "b_add", &["b_v", "y"], &["b_v_out"])],
+            inputs: vec![
+                ValueInfo::new("b_iter", dt::INT64, Some(vec![])),
+                ValueInfo::new("b_cond", dt::BOOL, Some(vec![])),
+                ValueInfo::new("b_v", dt::FLOAT, None),
+            ],
+            outputs: vec![ValueInfo::new("b_cond_out", dt::BOOL, None), ValueInfo::new("b_v_out", dt::FLOAT, None)],
+            ..Default::default()
+        };
+        let carried = vals[last].name.clone();
+        g.nodes.push(Node::new("Loop", "op_loop", &["trip", "", &carried], &["w"]).attr("body", onnx_enc::Attr::Graph(body)));
+        let w = push_val(&mut vals, "w", ops.len());
+        ops.push(("op_loop".into(), vec![trip, last, y], vec![w]));
+        last = w;
+    }
+    g.nodes.push(Node::new("Neg", "op_z", &[&vals[last].name.clone()], &["z"]));
+    let z = push_val(&mut vals, "z", ops.len());
+    ops.push(("op_z".into(), vec![last], vec![z]));
+    let graph_outputs = vec![z];
+    g.outputs.push(ValueInfo::new("z", dt::FLOAT, None));
+    let bytes = g.into_model_bytes(18);
+    let optimize = rng.chance(1, 3);
+    let model = load(&bytes, optimize).ok()?;
+    let (nodes_field, meta_field, n_nodes, op_ids) = read_back(&model);
+    let val_ids = vals.iter().map(|v| model.find_node(&v.name).map(|i| i.as_u32())).collect();
+    let assumption_failures = check_assumptions(&model);
+    Some(GenModel { bytes, optimize, vals, ops, n_inputs, decls, n, graph_outputs, nodes_field, meta_field, n_nodes, val_ids, op_ids, assumption_failures, control_flow: true })
 }
 
 // ------------------------------------------------------------------ requests
 
 impl GenModel {
     pub fn good_spec(&self, v: usize, rng: &mut Rng) -> Spec {
-        Spec { dtype: 1, shape: vec![self.n, self.vals[v].width], owned: rng.chance(1, 2) }
+        match self.vals[v].special {
+            1 => Spec { dtype: 0, shape: vec![], owned: rng.chance(1, 2), ival: rng.below(2) as i32 },
+            2 => Spec { dtype: 0, shape: vec![], owned: rng.chance(1, 2), ival: rng.below(4) as i32 },
+            _ => Spec { dtype: 1, shape: vec![self.n, self.vals[v].width], owned: rng.chance(1, 2), ival: 0 },
+        }
     }
 
     /// Values with a node id in the loaded graph that are not initializers.
@@ -467,7 +666,7 @@ pub fn mutate(gm: &GenModel, kind: &str, ins0: &[(usize, Spec)], outs0: &[usize]
     };
     let apply_value_mut = |kind: &str, req: &mut Req, rng: &mut Rng| -> Option<bool> {
         // pick a supplied graph input
-        let cands: Vec<usize> = (0..ins0.len()).filter(|&k| ins0[k].0 < gm.n_inputs).collect();
+        let cands: Vec<usize> = (0..ins0.len()).filter(|&k| ins0[k].0 < gm.n_inputs && gm.vals[ins0[k].0].special == 0).collect();
         if cands.is_empty() {
             return None;
         }
@@ -550,7 +749,7 @@ pub fn mutate(gm: &GenModel, kind: &str, ins0: &[(usize, Spec)], outs0: &[usize]
         }
         "unknown_in" => {
             let id = unknown(rng);
-            let spec = Spec { dtype: 1, shape: vec![gm.n, 4], owned: rng.chance(1, 2) };
+            let spec = Spec { dtype: 1, shape: vec![gm.n, 4], owned: rng.chance(1, 2), ival: 0 };
             if rng.chance(1, 2) && !req.inputs.is_empty() {
                 let k = rng.usize_below(req.inputs.len());
                 req.inputs[k] = (id, spec);
@@ -571,7 +770,7 @@ pub fn mutate(gm: &GenModel, kind: &str, ins0: &[(usize, Spec)], outs0: &[usize]
         }
         "op_in" => {
             let id = *rng.pick(&gm.op_ids);
-            let spec = Spec { dtype: 1, shape: vec![gm.n, 4], owned: rng.chance(1, 2) };
+            let spec = Spec { dtype: 1, shape: vec![gm.n, 4], owned: rng.chance(1, 2), ival: 0 };
             if rng.chance(1, 2) && !req.inputs.is_empty() {
                 let k = rng.usize_below(req.inputs.len());
                 req.inputs[k] = (id, spec);
@@ -636,7 +835,7 @@ pub fn mutate(gm: &GenModel, kind: &str, ins0: &[(usize, Spec)], outs0: &[usize]
                 }
             } else if !req.inputs.iter().any(|(i, _)| *i == id) {
                 // supplying a value for a constant node: accepted by create_plan, never validated
-                let sp = Spec { dtype: *rng.pick(&[0, 1]), shape: vec![1, 4], owned: rng.chance(1, 2) };
+                let sp = Spec { dtype: *rng.pick(&[0, 1]), shape: vec![1, 4], owned: rng.chance(1, 2), ival: 0 };
                 req.inputs.push((id, sp));
             }
         }
